@@ -432,8 +432,17 @@ def contReq (st : St) (toks : List String) : St × String :=
     | none => (st, "err")
     | some (ns, s) => (newWorld st ns s, s!"ok n={ns.length}")
   | ["g.deraw", _i, _fmt, _hex] => (st, "any")
-  -- the container with text keys: not modelled, the harness judges it by the statement alone
-  | ["g.destr", _i, _fmt, _hex] => (st, "robust")
+  -- the container with text keys: a document that could be typed arrives with its keys renamed injectively to
+  -- numbers (`@abs=`) and goes through the abstract deserialiser (generic in the key type); the world is not replaced
+  | ["g.destr", _i, _fmt, _hex] =>
+    match parseAbs toks with
+    | some (some (nodes, edges)) =>
+      match rebuild nodes edges with
+      | none => (st, "err")
+      | some (ns, s) =>
+        let w := newWorld st ns s
+        (st, s!"ok n={ns.length} {dump w} vals={",".intercalate (ns.map fun x => s!"{x.1}:{x.2}")}")
+    | _ => (st, "robust")
   | "g.de" :: _i :: _fmt :: _doc =>
     match parseAbs toks with
     | none => (st, "bad-abs")
